@@ -234,7 +234,7 @@ pub fn replay(ctx: &Arc<Ctx>, v: &Value) {
 pub fn run(ctx: &Arc<Ctx>) {
     refmodels::selftest::run(&["sm3", "sm9"]).unwrap_or_else(|e| ctx.machinery_error(format!("reference self-test failed: {}", e)));
     let n = sm9::params().n.clone();
-    ctx.set_rule("stateright BFS over the man-in-the-middle choices for the two deliveries R_A->B and R_B->A, each in {pass, re-randomised Jacobian representation, affine as decoded from the 65-byte wire form, -R, 2R, P1, off-curve, point at infinity}, on the real exch_step_1a / 1b / 2a with ephemeral scalars fixed through the RNG seam, per configuration (master {Annex ke, seeded} x identity pairs {Alice/Bob, ''/x, seeded} and, on honest runs, identities a normalising implementation would alter: trailing / leading white space, line ends, NUL, case, trailing hid byte); honest paths for every klen 1..=128 and klen in {8160, 8191, 8192, 8193, 8225}; key objects holding Ppub-e / de in Jacobian representations with structured Z. Invariant: honest deliveries (incl. re-randomised) give SK_A = SK_B = KDF(ID_A||ID_B||R_A||R_B||g1||g2||g3) of the reference (incl. the GM/T 0044.5 example); an off-curve R is refused by the step that receives it; any other altered R makes the two keys differ; no panic.");
+    ctx.set_rule("stateright BFS over the man-in-the-middle choices for the two deliveries R_A->B and R_B->A, each in {pass, re-randomised Jacobian representation, affine as decoded from the 65-byte wire form, -R, 2R, P1, off-curve, point at infinity}, on the real exch_step_1a / 1b / 2a with ephemeral scalars fixed through the RNG seam, per configuration (master {Annex ke, seeded} x identity pairs {Alice/Bob, ''/x, seeded} and, on honest runs, identities a normalising implementation would alter: trailing / leading white space, line ends, NUL, case, trailing hid byte); honest paths for every klen 1..=128 (thorough 400) and klen in {8160, 8191, 8192, 8193, 8225}; key objects holding Ppub-e / de in Jacobian representations with structured Z. Invariant: honest deliveries (incl. re-randomised) give SK_A = SK_B = KDF(ID_A||ID_B||R_A||R_B||g1||g2||g3) of the reference (incl. the GM/T 0044.5 example); an off-curve R is refused by the step that receives it; any other altered R makes the two keys differ; no panic.");
     let mut g = SplitMix::new(ctx.seed, "c17");
     let annex = Config { ke: "0002E65B0762D042F51F0D23542B13ED8CFA2E9A0E7206361E013A283905E31F".into(), ida: "Alice".into(), idb: "Bob".into(), ra: "00005879DD1D51E175946F23B1B41E93BA31C584AE59A426EC1046A4D03B06C8".into(), rb: "00018B98C44BEF9F8537FB7D071B2C928B3BC65BD3D69E1EEE213564905634FE".into() };
     let seeded_ke = hexbig(&g.nonzero_below(&n));
@@ -294,7 +294,7 @@ pub fn run(ctx: &Arc<Ctx>) {
             cases.push(Case { cfg: c.clone(), klen, adv: [0, 0], tag: format!("honest/cfg{}", ci) });
         }
     }
-    for klen in 1..=128usize {
+    for klen in 1..=ctx.tier.pick(128usize, 400) {
         cases.push(Case { cfg: cfgs[klen % cfgs.len()].clone(), klen, adv: [[0u16, 1, 7][klen % 3], [0u16, 1, 7][(klen / 3) % 3]], tag: format!("honest/klen%32={}", if klen % 32 == 0 { "0" } else { "!0" }) });
     }
     for (i, zq) in Z2_NAMES.iter().enumerate() {
